@@ -2027,6 +2027,13 @@ impl JsObject {
         self.properties.get(key).cloned()
     }
 
+    /// Define a property with the attributes of a built-in one (`constructor`, the `message` of
+    /// an error, the `size` of a collection): writable, configurable, not enumerable
+    pub fn define_builtin_property(&mut self, key: PropertyKey, value: JsValue) {
+        self.properties
+            .insert(key, Property::with_attributes(value, true, false, true));
+    }
+
     /// Store engine bookkeeping (`__super__`, `__super_target__`, `__ns_exports__`) on an object: a property
     /// that enumeration, Object.keys and JSON never show
     pub fn set_internal_slot(&mut self, key: PropertyKey, value: JsValue) {
